@@ -10,14 +10,21 @@
 (*       and an enemy slider anywhere (diagonal, file and rank x-rays,     *)
 (*       checks by the pushed pawn, discovered checks), one or two         *)
 (*       capturers                                                         *)
+(*   F2  en passant giving check : own slider anywhere, enemy king         *)
+(*       anywhere; discovered checks through the capturer's origin square  *)
+(*       and through the captured pawn's square, direct checks             *)
 (*   F3  castling : every subset of the mover's rights x one enemy piece   *)
 (*       of every kind on every square (attackers of e/f/g/d/c/b squares,  *)
 (*       blockers) x own blockers                                          *)
 (*   F4  promotions : pawn on the 7th on every file x capturable pieces    *)
 (*       left/right x blocker ahead x enemy slider anywhere (pins along    *)
 (*       file, rank and both diagonals, checks)                            *)
+(*   F5  home-rook captures with the right still held : by promoting pawns *)
+(*       (b7xa8, g7xh8), knights, bishops, rooks and queens                *)
 (*   F6  pins : own piece of every kind between own king and an enemy      *)
 (*       slider on every ray, pinner capturable or not, second attacker    *)
+(*   F7  castling look-alikes : a rook or queen on e1 / e8 moving two      *)
+(*       files sideways (e8g8, e8c8, e1g1, e1c1), with and without rights  *)
 (* Both colours are covered by emitting Mirror(p) as well (its legal set   *)
 (* is computed by Legal on the mirrored position, not by symmetry).        *)
 (***************************************************************************)
@@ -55,6 +62,19 @@ F1Ok(wk, p) ==
   /\ p.board[p.ep] = 0 /\ p.board[p.ep + 8] = 0
   /\ RetroLegal(p)
 
+\* ---- F2: en passant that gives check: own slider, enemy king on the seed square; the capture opens a line through the
+\* capturer's origin and/or through the captured pawn's square, or checks directly
+F2Set(bk) ==
+    {MkPos({<<wk, 6>>, <<bk, 12>>, <<MkSq(cf, 4), 1>>, <<MkSq(cf + side, 4), 7>>, <<ss, sk>>}, 0, 0, MkSq(cf + side, 5)) :
+        wk \in {0, 7, 63}, cf \in 0..7, side \in {-1, 1}, sk \in {3, 4, 5}, ss \in Sq}
+F2Ok(p) ==
+  /\ Count(p.board, 6) = 1 /\ Count(p.board, 12) = 1
+  /\ Cardinality({s \in Sq : p.board[s] # 0}) = 5
+  /\ p.board[p.ep] = 0 /\ p.board[p.ep + 8] = 0
+  /\ LET b2 == [s \in Sq |-> IF p.board[s] \in {1, 7} THEN 0 ELSE p.board[s]]
+     IN Full \/ Attacked(b2, KingSq(p.board, 1), 0)
+  /\ RetroLegal(p)
+
 \* ---- F3: castling.  White to move; rights subset; one black piece anywhere; optional white blocker
 F3Set(x) ==
   {MkPos({<<4, 6>>, <<0, 4>>, <<7, 4>>, <<60, 12>>, <<x, bp>>} \cup (IF wb = -1 THEN {} ELSE {<<wb, 2>>}), 0, rights, -1) :
@@ -85,7 +105,28 @@ F6Set(x) ==
         k \in {1, 2, 3, 4, 5}, sk \in Sliders, xp \in (IF Full THEN {7, 8, 10} ELSE {7})} :
     wk \in (IF Full THEN {0, 4, 27, 36, 18} ELSE {4, 27}), d \in 1..8}
 
+\* ---- F5: captures of rooks on their home squares while the right is still held: by promoting pawns (b7xa8, g7xh8),
+\* knights, bishops, queens; also quiet promotions next to the rooks.  White king on the seed square.
+F5Set(x) ==
+  {MkPos({<<x, 6>>, <<60, 12>>, <<56, 10>>, <<63, 10>>, <<y, k>>}
+           \cup (IF pb THEN {<<49, 1>>} ELSE {}) \cup (IF pg THEN {<<54, 1>>} ELSE {}),
+         0, rights, -1) :
+      rights \in {4, 8, 12}, pb \in BOOLEAN, pg \in BOOLEAN, k \in {2, 3, 5, 4},
+      y \in (IF Full THEN {41, 50, 53, 46, 35, 36, 0, 7, 42, 45, 19, 20} ELSE {41, 53, 35, 36, 0, 7})}
+
+\* ---- F7: moves that LOOK like castling in UCI text but are not: a rook / queen / knight-free piece standing on e1 or e8
+\* (either side's king home square) moving two files sideways, with and without castling rights of the mover;
+\* the enemy king on the seed square
+F7Set(x) ==
+  {MkPos({<<4, 6>>, <<0, 4>>, <<7, 4>>, <<x, 12>>, <<60, k>>} \cup (IF extra THEN {<<12, 1>>} ELSE {}), 0, rights, -1) :
+      k \in {4, 5}, rights \in {0, 1, 2, 3}, extra \in BOOLEAN}
+  \cup
+  {MkPos({<<kw, 6>>, <<x, 12>>, <<4, k>>, <<60, k2>>}, 0, 0, -1) : kw \in {16, 23}, k \in {4, 5}, k2 \in {4, 5}}
+
 Candidates(x) == CASE Fam = "F1" -> {p \in F1Set(x) : F1Ok(x, p)}
+                   [] Fam = "F7" -> F7Set(x)
+                   [] Fam = "F5" -> F5Set(x)
+                   [] Fam = "F2" -> {p \in F2Set(x) : F2Ok(p)}
                    [] Fam = "F3" -> F3Set(x)
                    [] Fam = "F4" -> F4Set(x)
                    [] Fam = "F6" -> F6Set(x)
